@@ -3,6 +3,19 @@ import difflib
 import libcst as cst
 
 
+def split_lines(text: str) -> list[str]:
+    """
+    Split text into lines at "\n" only, keeping the line endings.
+
+    Unlike `str.splitlines` this does not split at form feeds, `\x1c`-`\x1e`,
+    `\x85` or `\u2028`/`\u2029`, which tools that report line numbers (and
+    `patch`) do not treat as line boundaries.
+    """
+    lines = text.split("\n")
+    last = lines.pop()
+    return [line + "\n" for line in lines] + ([last] if last else [])
+
+
 def create_diff(original_lines: list[str], new_lines: list[str]) -> str:
     diff_lines = list(difflib.unified_diff(original_lines, new_lines))
     return difflines_to_str(diff_lines)
@@ -13,8 +26,8 @@ def create_diff_from_tree(original_tree: cst.Module, new_tree: cst.Module) -> st
     Create a diff between the original and output trees.
     """
     return create_diff(
-        original_tree.code.splitlines(keepends=True),
-        new_tree.code.splitlines(keepends=True),
+        split_lines(original_tree.code),
+        split_lines(new_tree.code),
     )
 
 
